@@ -371,6 +371,8 @@ def run(F, R, tier):
                         "host call in %s passes key args %s; table says %s (a new unsigned host call must be reviewed)" % (owner, kinds, exp))
     R.floor("C04.R6", n_sites, 7, "build_request/get call sites outside hyper_client")
 
+    canonical_form_table(F, R)
+
     # ------------------------------------------------------------------ R7 overwriting keyed inserts
     for name in ("headers_to_canonicalized_string", "get_path_and_canonicalized_parameters"):
         fn = R.anchor(HC + name, "C04.R7")
@@ -391,6 +393,51 @@ def run(F, R, tier):
                     "request items are accumulated with an overwriting HashMap::insert (displaced value discarded): repeated %s "
                     "collapse to one in the signed string while the host receives all of them"
                     % ("header names" if "headers" in name else "query pairs with equal key+value concatenation"))
+
+
+def canonical_form_table(F, R):
+    """C04.R8: the canonical string's construction (sort key, pair/line templates, case folding, skip of the authorization header) is a
+    protocol with the host, reviewed once and frozen; any change of these semantic elements needs the host side to change with it"""
+    R.rule("C04.R8", "canonical form table: sort key, templates, case folding and skipped header are the reviewed ones")
+    gp = F.fns.get(HC + "get_path_and_canonicalized_parameters")
+    if gp:
+        B = mir.Body(gp, F)
+        tmpls = []
+        for bi, w, r, t in B.calls_named("fmt::format"):
+            fmt = q.format_of(B, {"k": "copy", "p": {"l": t["dest"]["l"], "p": []}})
+            if fmt:
+                lowered = [any(q.ends(v, "to_lowercase", "to_ascii_lowercase") for v in B.via(a["operand"])) for a in fmt["args"]]
+                tmpls.append((q.template_text(fmt), tuple(lowered), B.line(bi)))
+        texts = sorted(x[0] for x in tmpls)
+        sortkey = [x for x in tmpls if x[0] == "{}{}"]
+        pair = [x for x in tmpls if x[0] == "{}={}"]
+        sorts = B.calls_named("slice::sort", "sort", "Itertools::sorted", "sorted", "sort_unstable")
+        n_lower = len(B.calls_named("str::to_lowercase", "to_lowercase"))
+        ok = len(sortkey) == 1 and sortkey[0][1][0] is True and len(pair) == 1 and len(sorts) >= 1 and n_lower >= 1
+        # what is sorted carries the sort key as its first component
+        R.check(ok, "C04.R8", "C04.R8:%s:query-canonical-form" % gp["id"], "%s:%s" % (gp["file"], gp["line"]),
+                "query parameters: sort key = lower(name)+value (\"{}{}\"), emitted as lower(name)=value joined by '&', sorted ascending",
+                "the canonical form of query parameters changed (format templates now %s, %d sort call(s)): the host recomputes the MAC with the "
+                "reviewed form (sort by the concatenation lower(name)+value), so signatures stop verifying for some queries" % (texts, len(sorts)))
+        amp = [c for c in B.calls_named("String::push") if c[3]["args"][1]["k"] == "const" and c[3]["args"][1].get("val") == ord("&")]
+        R.check(len(amp) == 1, "C04.R8", "C04.R8:%s:separator" % gp["id"], "-", "pairs are joined with '&'")
+    hc = F.fns.get(HC + "headers_to_canonicalized_string")
+    if hc:
+        B = mir.Body(hc, F)
+        tm = []
+        for bi, w, r, t in B.calls_named("fmt::format"):
+            fmt = q.format_of(B, {"k": "copy", "p": {"l": t["dest"]["l"], "p": []}})
+            if fmt:
+                trimmed = [any(q.ends(v, "trim") for v in B.via(a["operand"])) or any(o[0] == "call" and q.ends(o[1], "trim") for o in a["origins"]) for a in fmt["args"]]
+                tm.append((q.template_text(fmt), tuple(trimmed)))
+        line = [x for x in tm if x[0] == "{}:{}{}"]
+        lower = bool(B.calls_named("str::to_lowercase", "to_lowercase"))
+        srt = bool(B.calls_named("Itertools::sorted", "sorted", "sort"))
+        skip = [c for c in B.calls_named("eq_ignore_ascii_case") if K + "AUTHORIZATION_HEADER" in q.const_args(B, c[3], 1)]
+        R.check(len(line) == 1 and line[0][1][1] is True and lower and srt and len(skip) == 1, "C04.R8", "C04.R8:%s:header-canonical-form" % hc["id"],
+                "%s:%s" % (hc["file"], hc["line"]),
+                "headers: lower-cased names, sorted, one line \"name:trim(value)LF\" each, authorization header skipped",
+                "the canonical form of headers changed: templates %s lower=%s sorted=%s skip=%d" % (tm, lower, srt, len(skip)))
 
 
 def check_auth_format(B, R, fmt, fid, where, guid_pred, rule):
